@@ -1683,10 +1683,18 @@ def section_cli(chk, r, binary, rig, n, distinct):
             # every other case names the extraction directory by a RELATIVE path (from another working
             # directory): everything nextest reports afterwards is still remapped into the real directory
             rel_dest = ci % 2 == 1
+            # every third case also remaps the workspace root to a copy of the sources elsewhere
+            ws_copy = None
+            if ci % 3 == 2:
+                ws_copy = os.path.join(d, "ws-copy")
+                shutil.copytree(e2e.PUPPET, ws_copy, ignore=shutil.ignore_patterns("target", ".git"))
             pl = subprocess.run([rig.nextest, "nextest", "list", "--archive-file", arch, "--extract-to",
-                                 "x" if rel_dest else dest, "--message-format", "json", "--config-file", cfg],
+                                 "x" if rel_dest else dest, "--message-format", "json", "--config-file", cfg] +
+                                (["--workspace-remap", ws_copy] if ws_copy else []),
                                 cwd=d if rel_dest else e2e.PUPPET, env=env,
                                 capture_output=True, text=True, timeout=300)
+            if ws_copy:
+                chk.count("cli_roundtrip_workspace_remap")
             chk.count("cli_roundtrip_relative_extract_to" if rel_dest else "cli_roundtrip_absolute_extract_to")
             pd = subprocess.run([rig.nextest, "nextest", "list", "--manifest-path", manifest, "--message-format",
                                  "json", "--config-file", cfg], cwd=e2e.PUPPET, env=env, capture_output=True,
@@ -1697,6 +1705,12 @@ def section_cli(chk, r, binary, rig, n, distinct):
             else:
                 la, ta = listing_obs(pl.stdout, os.path.join(os.path.realpath(dest), "target"))
                 ld, td = listing_obs(pd.stdout, tgt)
+                if ws_copy:
+                    # with --workspace-remap every test's working directory moves with the workspace root
+                    src, dst = os.path.realpath(e2e.PUPPET), os.path.realpath(ws_copy)
+                    for v in ld.values():
+                        if v.get("cwd") and (v["cwd"] == src or v["cwd"].startswith(src + "/")):
+                            v["cwd"] = dst + v["cwd"][len(src):]
                 if ta != os.path.join(os.path.realpath(dest), "target"):
                     why = f"target directory after extraction is {ta}"
                 elif la != ld:
